@@ -384,41 +384,8 @@ pub fn run_scenario(world: &World, sc: &Scenario, tag: &str, res: &mut CaseResul
 // ------------------------------------------------------------------------------------------
 // world and scenarios
 
-/// Extend `parent` with one block whose only transaction spends an output of the given age class.
 fn extend_with_spend(world: &mut World, parent: usize, age: &str, tail_height: u64) -> Option<usize> {
-	let height = world.blocks[parent].height + 1;
-	let ledger = world.blocks[parent].ledger.clone();
-	let pool = World::spendable(&ledger, height);
-	let cands: Vec<OutInfo> = pool
-		.into_iter()
-		.filter(|o| match age {
-			"recent" => o.height + 6 >= height,
-			"pre-hf3" => o.height < 6,
-			"below-tail" => o.height < tail_height,
-			_ => true,
-		})
-		.collect();
-	if cands.is_empty() {
-		return None;
-	}
-	let x = world.rng.pick(&cands).clone();
-	let fee = libtx::tx_fee(1, 2, 1);
-	if x.value <= fee + 2 {
-		return None;
-	}
-	let a = world.rng.range(1, x.value - fee - 1);
-	let (tx, _) = world.wallet.build_tx(
-		&[x.clone()],
-		&[a, x.value - fee - a],
-		None,
-		KernelFeatures::Plain {
-			fee: FeeFields::new(0, fee).ok()?,
-		},
-	);
-	let dt = world.draw_dt();
-	let b = world.assemble(parent, &[tx.clone()], dt, None).ok()?;
-	let _ = ckey(&x.commit);
-	world.add_block(parent, b, 90, vec![tx], format!("spend-{}", age)).ok()
+	world.extend_with_spend(parent, age, tail_height)
 }
 
 pub struct CrashWorld {
